@@ -18,7 +18,7 @@ func init() {
 	simkit.Register(&simkit.Prop{
 		ID:   "C20",
 		Desc: "block encoding round-trips and binds the transaction list",
-		Rule: "a run = 6..30 blocks with 0..6 generated signed transactions and 1..4 bookkeeper signatures, each sent as bytes and altered in flight by a tape-chosen fault: none / transactions reordered / one duplicated / one dropped / one replaced by another valid transaction / transaction count field changed / a byte flipped in a tape-chosen header field (version, previous hash, transactions root, block root, timestamp, height, consensus data, consensus payload, next bookkeeper) / bookkeeper list or signatures changed only / random byte flip / truncation. For every byte string the decoder (BlockFromRawBytes) accepts: ToArray() equals the input; the header's transaction root equals the merkle root of the decoded transactions' hashes; no transaction hash occurs twice; if only bookkeepers/signatures were changed the block hash is unchanged; if any other header field was changed the block hash differs from the original. non-trivial = >= 2 accepted altered blocks evaluated and >= 2 rejected; distinct = distinct event-trace hash",
+		Rule: "a run = 6..30 blocks with 0..6 generated signed transactions and 1..4 bookkeeper signatures, each sent as bytes and altered in flight by a tape-chosen fault: none / transactions reordered / one duplicated / one dropped / one replaced by another valid transaction / transaction count field changed / a byte flipped in a tape-chosen header field (version, previous hash, transactions root, block root, timestamp, height, consensus data, consensus payload, next bookkeeper) / bookkeeper list or signatures changed only / random byte flip / truncation. For every byte string the decoder (BlockFromRawBytes) accepts: ToArray() equals the consumed prefix of the input; the header's transaction root equals the merkle root of the decoded transactions' hashes; no transaction hash occurs twice; if only bookkeepers/signatures were changed the block hash is unchanged; if any other header field was changed the block hash differs from the original. non-trivial = >= 2 accepted altered blocks evaluated and >= 2 rejected; distinct = distinct event-trace hash",
 		Real: []string{"core/types block and header codecs", "core/types transaction codec", "common.ComputeMerkleRoot"},
 		Stub: []string{"block producer and corrupting link (harness)"},
 		Assumptions:    []string{"the only simulator dimension is in-flight corruption by a faulty peer; exploration over generated corruptions, not all byte strings"},
@@ -174,8 +174,12 @@ func runC20(c *simkit.Ctx) {
 			c.Probe("accepted_altered")
 		}
 		evaluated++
-		if out := dec.ToArray(); !bytes.Equal(out, in) {
-			c.Fail("reencoding-differs", name, "accepted %d bytes, re-encodes to %d different bytes", len(in), len(out))
+		// the decoder reads a block from the front of a stream (the p2p Block message
+		// continues after it), so the re-encoding must equal the bytes it consumed
+		if out := dec.ToArray(); !bytes.HasPrefix(in, out) {
+			c.Fail("reencoding-differs", name, "accepted input of %d bytes, re-encodes to %d bytes that are not the consumed prefix", len(in), len(out))
+		} else if len(out) != len(in) {
+			c.Probe("trailing_bytes_left_unconsumed")
 		}
 		var hashes []common.Uint256
 		seen := map[common.Uint256]bool{}
